@@ -16,7 +16,7 @@ Ev == Evs[l]
 Is(n) == l <= Len(Evs) /\ Ev.e = n
 Consume == l' = l + 1 /\ tid' = tid
 
-TInit == tid \in 1..NT /\ l = 1 /\ InitWith(Traces[tid].sup, Traces[tid].pref, Traces[tid].tracked)
+TInit == tid \in 1..NT /\ l = 1 /\ InitWithFault(Traces[tid].sup, Traces[tid].pref, Traces[tid].tracked, Traces[tid].broken)
 
 SNext ==
   \/ Is("Propose") /\ Propose /\ proposed' = Ev.v /\ Consume
@@ -24,6 +24,7 @@ SNext ==
        /\ (Paired => Ev.a = [k |-> "version", v |-> ServerAnswerTo(proposed)])
   \/ phase = "answered" /\ Decide /\ UNCHANGED <<tid, l>>
   \/ Is("Initialized") /\ SendInitialized /\ Consume
+  \/ phase = "accepted" /\ InitializedWriteFails /\ UNCHANGED <<tid, l>>
   \/ Is("Outcome") /\ Consume
        /\ IF phase = "notified" THEN Return /\ Ev.kind = "ok" /\ Ev.version = answer.v
           ELSE phase = "failed" /\ outcome.kind = Ev.kind /\ UNCHANGED vars
@@ -32,19 +33,19 @@ SNext ==
 
 ONext ==
   \/ Is("Propose") /\ Consume /\ proposed' = Ev.v /\ wire' = Append(wire, <<"initialize", Ev.v>>) /\ phase' = "waiting"
-       /\ UNCHANGED <<sup, pref, tracked, answer, outcome, batching, sessVersion>>
+       /\ UNCHANGED <<sup, pref, tracked, answer, outcome, batching, sessVersion, wireBroken>>
   \/ Is("Answer") /\ Consume /\ answer' = Ev.a /\ phase' = "answered"
-       /\ UNCHANGED <<sup, pref, tracked, proposed, wire, outcome, batching, sessVersion>>
+       /\ UNCHANGED <<sup, pref, tracked, proposed, wire, outcome, batching, sessVersion, wireBroken>>
   \/ Is("Initialized") /\ Consume /\ wire' = Append(wire, <<"initialized", "-">>)
-       /\ UNCHANGED <<sup, pref, tracked, proposed, answer, phase, outcome, batching, sessVersion>>
+       /\ UNCHANGED <<sup, pref, tracked, proposed, answer, phase, outcome, batching, sessVersion, wireBroken>>
   \/ Is("Outcome") /\ Consume
        /\ outcome' = (IF Ev.kind = "ok" THEN [kind |-> "ok", version |-> Ev.version] ELSE [kind |-> Ev.kind])
        /\ phase' = (IF Ev.kind = "ok" THEN "done" ELSE "failed")
-       /\ UNCHANGED <<sup, pref, tracked, proposed, answer, wire, batching, sessVersion>>
+       /\ UNCHANGED <<sup, pref, tracked, proposed, answer, wire, batching, sessVersion, wireBroken>>
   \/ Is("Batching") /\ Consume /\ batching' = Ev.state
-       /\ UNCHANGED <<sup, pref, tracked, proposed, answer, phase, wire, outcome, sessVersion>>
+       /\ UNCHANGED <<sup, pref, tracked, proposed, answer, phase, wire, outcome, sessVersion, wireBroken>>
   \/ Is("Session") /\ Consume /\ sessVersion' = Ev.version
-       /\ UNCHANGED <<sup, pref, tracked, proposed, answer, phase, wire, outcome, batching>>
+       /\ UNCHANGED <<sup, pref, tracked, proposed, answer, phase, wire, outcome, batching, wireBroken>>
 
 TNext == IF Strict THEN SNext ELSE ONext
 TSpec == TInit /\ [][TNext]_tvars
